@@ -43,6 +43,9 @@ ConstructBad(e) ==
         \cup (IF e.outcome # "ok" \/ expectErr THEN {}
               ELSE (IF e.n_noninc = 0 /\ e.n_nan = 0 /\ NonDecreasingQ(e.ms) THEN {} ELSE {"Increasing"})
                    \cup (IF e.mi_at <= AgreeMax /\ e.mi_self <= AgreeMax THEN {} ELSE {"MiIsValueAtPi"})
+                   \* mi_kept = |m_scaled_func(p_i) after the caller edited its own pressure array in place - m_i|: the wrapper
+                   \* that was built keeps answering for the table it was built from (0 when nothing was edited)
+                   \cup (IF e.mi_kept <= AgreeMax THEN {} ELSE {"MiIsValueAtPi"})
                    \cup (IF b # "user" \/ (/\ e.mi_low <= AgreeMax /\ e.mi_high <= AgreeMax
                                            /\ e.node => e.mi_one <= AgreeMax) THEN {} ELSE {"UserAlphaMi"})
                    \cup (IF e.alpha_bad = 0 /\ (b = "user" \/ e.alpha_nodes <= AgreeMax) THEN {} ELSE {"AlphaAtNodes"}))
